@@ -58,6 +58,9 @@ CHECKS = {
  "C07": ("model_checking", "exhaustive exploration of Engine.Execute over all 65,536 flag words, a product of script pairs x transaction contexts x input indices x debuggers and all short byte strings, executed in isolated child processes with death/hang attribution and an allocation bound",
          "Every execution of the bounded spaces must return nil or an error: panics are recovered per case, log.Fatal / out-of-memory / hangs are attributed to the exact case through a progress marker and reproduced twice in fresh processes, and a 32 MiB allocation bound catches count-driven allocations.",
          "Child processes run under RLIMIT_AS 6 GiB with a 90 s stall watchdog; WithState is excluded (documented experimental).", "DESIGN.md §4 C07"),
+ "C06": ("exploration", "exhaustive product of signature-opcode scenarios with real ECDSA signatures (lock forms x key encodings x 17 hash types x 9 signature kinds x all 64 signature-flag subsets x both eras; every m-of-n<=3 with every tuple over the slot alphabet), each executed in lockstep against the reference CHECKSIG/CHECKMULTISIG model",
+         "Every scenario is executed by the real interpreter and by the reference; the verdict and the stack after every instruction must agree. Signatures are produced from the reference digests so that 'valid' means valid under the node's rules for the flags in force.",
+         "Reference sig-op model written after the node's interpreter.cpp as the author knows it, certified on the signature vectors of script_tests.json; SIGHASH_FORKID implies STRICTENC as the library documents. Known finding: FORKID-bit signatures verified without the FORKID flag use the FORKID digest (cannot be fixed: a repository example relies on it).", "DESIGN.md §4 C06"),
 }
 
 PENDING_REASON = "check not built yet in this round (planned, see DESIGN.md §4); not claimed until its exhaustive check exists and is quiet on the unchanged tree"
